@@ -42,7 +42,9 @@ class Prop:
         from ..zoo11 import DEFER
         c = stream(seed, "config")
         r = stream(seed, "ops")
-        names = sorted(DEFER)
+        proto_only = c.random() < 0.25
+        from ..zoo11 import PROTO_NAMES
+        names = sorted(PROTO_NAMES) if proto_only else sorted(DEFER)
         ncand = c.randint(2, 3)
         nmid = 2
         listen = {n: c.choice(["none", "otc", "obs", "both"]) for n in names}
@@ -78,7 +80,8 @@ class Prop:
                 op = {"k": "read_all"}
             ops.append(op)
         return {"prop": ID, "seed": seed,
-                "config": {"ncand": ncand, "listen": listen}, "ops": ops}
+                "config": {"ncand": ncand, "listen": listen, "proto_only": proto_only},
+                "ops": ops}
 
     # ------------------------------------------------------------------ model
     class M:
@@ -111,12 +114,11 @@ class Prop:
         return self.mid_value(m, m.mid, tattr)
 
     def all_values(self, m):
-        from ..zoo11 import DEFER
-        return {n: self.value(m, n) for n in DEFER}
+        return {n: self.value(m, n) for n in self.names}
 
     # ------------------------------------------------------------------ execution
     def execute(self, trace, env):
-        from ..zoo11 import Target, Mid, Child, DEFER, STR_ATTRS
+        from ..zoo11 import Target, Mid, Child, ProtoChild, PROTO_NAMES, DEFER, STR_ATTRS
         from traits.trait_errors import TraitError
         from traits.api import push_exception_handler
         from traits.observation import api as oapi
@@ -125,7 +127,8 @@ class Prop:
         m = self.mk_model(ncand)
         cands = [Target(uid=i) for i in range(ncand)]
         mids = [Mid(uid=k, inner=cands[m.mids[k]["inner"]]) for k in range(2)]
-        child = Child(parent=cands[0], mid=mids[0])
+        self.names = sorted(PROTO_NAMES) if cfg.get("proto_only") else sorted(DEFER)
+        child = (ProtoChild if cfg.get("proto_only") else Child)(parent=cands[0], mid=mids[0])
         held = [True] * ncand          # harness still references candidate j
         routed = []
         self._pushed = False
@@ -138,12 +141,14 @@ class Prop:
 
         def attach():
             for name, mech in sorted(cfg["listen"].items()):
+                if name not in self.names:
+                    continue
                 if mech in ("otc", "both"):
                     child.on_trait_change(mk_otc(events, env), name)
                 if mech in ("obs", "both"):
                     child.observe(mk_obs(events, env), name)
         attach()
-        listening = {n for n, mech in cfg["listen"].items() if mech != "none"}
+        listening = {n for n, mech in cfg["listen"].items() if mech != "none" and n in self.names}
         nmech = {n: {"none": 0, "otc": 1, "obs": 1, "both": 2}[mech]
                  for n, mech in cfg["listen"].items()}
         stats = {"notify_checked": 0, "silence_checked": 0}
@@ -186,7 +191,9 @@ class Prop:
                         held[j] = True
                         m.cands[j] = {"x": 1, "y": "y", "p_a": 2, "p_pa": 3, "q_b": 4, "q_pb": 5}
                     return j
-                if k == "set_via":
+                if k in ("set_via", "del_local") and op["name"] not in self.names:
+                    pass
+                elif k == "set_via":
                     name = op["name"]
                     kind, dattr, tattr = DEFER[name]
                     is_str = tattr in ("y", "my")
@@ -265,7 +272,7 @@ class Prop:
             env.end_op()
             after = self.all_values(m)
             # ---- mirror: every deferring attribute reads as the model says
-            for name in sorted(DEFER):
+            for name in self.names:
                 got, e = sut(getattr, child, name)
                 env.oracle_evals += 1
                 if e is not None or got != after[name]:
@@ -286,7 +293,7 @@ class Prop:
                 by = {}
                 for ev in events:
                     by.setdefault(ev[0], []).append(ev)
-                for name in sorted(DEFER):
+                for name in self.names:
                     if name not in listening:
                         continue
                     changed = before[name] != after[name]
